@@ -108,6 +108,18 @@ func c18Run(c *c18Case) []Failure {
 		if e != o {
 			fs = append(fs, Failure{Sig: "endpoint.Parse/value-differs", Desc: fmt.Sprintf("Parse(%q) = %+v, the string describes %+v", c.S, o, e)})
 		}
+		// the transport kind as the accessors report it (what the framework consults, e.g. to attach a TLS configuration), on the
+		// parsed endpoint and on its registry round trip: tcp = 1, udp = 0, ssl = 2 in the expected record
+		for _, q := range []struct {
+			what string
+			ep   endpoint.Endpoint
+		}{{"Parse", o.toEp()}, {"Tars2endpoint(Endpoint2tars(Parse", endpoint.Tars2endpoint(endpoint.Endpoint2tars(o.toEp()))}} {
+			wantTCP, wantUDP, wantSSL := e.Istcp == 1 || e.Istcp == 2, e.Istcp == 0, e.Istcp == 2
+			if q.ep.IsTcp() != wantTCP || q.ep.IsUdp() != wantUDP || q.ep.IsSSL() != wantSSL {
+				fs = append(fs, Failure{Sig: "endpoint.kind/accessors-differ", Desc: fmt.Sprintf("%s(%q)) reports IsTcp=%v IsUdp=%v IsSSL=%v, the string describes tcp=%v udp=%v ssl=%v", q.what, c.S, q.ep.IsTcp(), q.ep.IsUdp(), q.ep.IsSSL(), wantTCP, wantUDP, wantSSL)})
+				break
+			}
+		}
 		// key agreement with the registry path
 		r := endpoint.Tars2endpoint(endpoint.Endpoint2tars(o.toEp()))
 		if r.Key != o.Key {
